@@ -217,3 +217,29 @@ pub fn mesh(rng: &mut Rng) -> Mesh {
     let t = iso3(rng, 20.0);
     moved(&m, &t)
 }
+
+use engeom::geom3::Curve3;
+
+pub fn curve3_points(rng: &mut Rng) -> Vec<Point3> {
+    let (p2, _) = curve2_points(rng);
+    let mode = rng.below(3);
+    let t = iso3(rng, 10.0);
+    p2.iter()
+        .enumerate()
+        .map(|(i, p)| {
+            let z = match mode {
+                0 => 0.0,
+                1 => (i as f64 * 0.7).sin(),
+                _ => i as f64 * 0.25,
+            };
+            let q = Point3::new(p.x, p.y, z);
+            if mode == 0 { q } else { t * q }
+        })
+        .collect()
+}
+
+pub fn curve3(rng: &mut Rng) -> Option<(Curve3, Vec<Point3>, f64)> {
+    let pts = curve3_points(rng);
+    let tol = *rng.pick(&[1e-6, 1e-8, 1e-4, 1e-10]);
+    Curve3::from_points(&pts, tol).ok().map(|c| (c, pts, tol))
+}
